@@ -2,7 +2,7 @@
 import copy
 
 from common import freephil, enc, call_j, tokenizer
-from props import _fetch
+from props import _fetch, _heap
 
 LEVEL = "proof"
 MODULE = "Phil.Props.C18"
@@ -186,6 +186,14 @@ def run(ctx):
             f = check(rng, m, w)
         except BaseException as e:
             f = "check raised %s: %s" % (type(e).__name__, str(e)[:100])
+        if not f:
+            # identity assumptions of the heap model of extraction (Phil/HeapExtract.lean, Props/C18Detach.lean): the
+            # extracted objects are new, two extractions share nothing — except handed-out `.type = words` lists
+            ident = _heap.detachment_identity(w)
+            if isinstance(ident, str):
+                f = ident
+            elif ident is not None:
+                ctx.count("extractions_handing_out_word_lists")
         if f:
             ctx.fail(case, f, finding=["D9"] if _fetch.has_nested_further(tree) else None)
         paths = []
